@@ -1237,11 +1237,159 @@ def chain_cases(alias=(50, 150, 300, 600), elif_n=(100, 400, 1500), nest=(4, 8, 
     return out
 
 
+def _cursors(text):
+    """text with cursor marks (the character \u00a6) -> (text without them, [(line, col), ...])"""
+    pos = []
+    lines = text.split('\n')
+    for i, line in enumerate(lines):
+        while '\u00a6' in line:
+            c = line.index('\u00a6')
+            pos.append((i + 1, c))
+            line = line[:c] + line[c + 1:]
+        lines[i] = line
+    return '\n'.join(lines), pos
+
+
+# nested scopes whose requests come from regions that are NOT the entry region of the scope (after an if / loop);
+# X stands for a name the flat run binds (or would bind)
+SCOPE_SHAPES = {
+    'function-if-else': 'def pick(a):\n    if a:\n        b = 1\n    else:\n        b = 2\n    c = X¦\n    return X.¦zz¦\n',
+    'function-loop': 'def pick(a):\n    for k in a:\n        pass\n    return X¦\n',
+    'class-body-if': 'class Options:\n    if 1: pass\n    first = X¦\n    second = first.¦zz\n',
+    'class-method-if': 'class Options:\n    def pick(self):\n        for k in ():\n            pass\n        return X¦\n'
+                       '    def other(self):\n        if self:\n            return 1\n        return self.pick().¦zz\n',
+    'function-nested-two-deep': 'def outer(a):\n    if a: pass\n    def inner(b):\n        if b: pass\n        def innermost(c):\n'
+                                '            if c: pass\n            return X¦, a, b\n        return innermost().¦zz\n    return inner¦\n',
+    'class-in-function': 'def make():\n    while 0: pass\n    class Inner:\n        if 1: pass\n        v = X¦\n        def m(self):\n'
+                         '            try: pass\n            except E: pass\n            return X.¦zz\n    return Inner¦\n',
+    'lambda-and-comprehension': 'def pick(a):\n    if a: pass\n    f = lambda q: (X¦, q)\n    g = [X¦ for q in a if q]\n    return f, g\n',
+}
+
+FLATRUN_KINDS = {
+    'if-reads': 'if have{0}: opt{0} = {0}\n',
+    'if-constant': 'if 1: opt{0} = {0}\n',
+    'try': 'try: opt{0} = {0}\nexcept E: pass\n',
+    'for': 'for opt{0} in (): pass\n',
+    'with': 'with ctx as opt{0}: pass\n',
+    'while': 'while 0: opt{0} = {0}\n',
+    'if-else-same-name': 'if have{0}: opt1 = {0}\nelse: other = {0}\n',
+}
+
+
+def flatscope_cases(sizes, kinds=None, shapes=None, placements=('after', 'before', 'both')):
+    """a long flat run of module-level compound statements PRECEDED and/or FOLLOWED by a nested scope that is being
+    edited; the flat run inside a function followed by a nested function; requests from non-entry regions"""
+    out = []
+    for n in sizes:
+        for kind, tpl in sorted(FLATRUN_KINDS.items()):
+            if kinds and kind not in kinds:
+                continue
+            run = ''.join(tpl.format(i) for i in range(n))
+            for shape, src in sorted(SCOPE_SHAPES.items()):
+                if shapes and shape not in shapes:
+                    continue
+                scope = src.replace('X', 'opt1')
+                for where in placements:
+                    if where == 'after':
+                        marked = run + scope + 'opt1¦\n'
+                    elif where == 'before':
+                        marked = scope + run + 'opt1¦\n'
+                    else:
+                        marked = scope + run + scope.replace('pick', 'pick2').replace('Options', 'Options2').replace('outer', 'outer2').replace('make', 'make2')
+                    text, pos = _cursors(marked)
+                    out.append(_case('flatscope:%s:%s:%s:%d' % (where, kind, shape, n), text, positions=pos))
+            # the flat run inside a function, followed by a nested function / class / lambda
+            body = ''.join('    ' + l + '\n' for l in run.splitlines())
+            for shape, tail in (('nested-function', '    def inner(z):\n        if z: pass\n        return opt1¦, z\n    return inner().¦zz\n'),
+                                ('nested-class', '    class Inner:\n        if 1: pass\n        v = opt1¦\n    return Inner.v.¦zz\n'),
+                                ('nested-lambda', '    f = lambda z: opt1¦\n    return f¦\n')):
+                marked = 'def host(ctx, E):\n' + body + tail + 'host().¦zz\n'
+                text, pos = _cursors(marked)
+                out.append(_case('flatscope:inside-function:%s:%s:%d' % (kind, shape, n), text, positions=pos))
+    return out
+
+
+NAMESPACE_READERS = ['locals()', 'vars()', 'globals()', 'dir()', 'tpl % locals()', 'dict(locals(), **globals())', 'locals']
+
+
+def _rebind_forms(b):
+    """[(label, statements)] rebinding the builtin name b (or not binding it at all) in the current body"""
+    return [
+        ('if', 'if DEBUG:\n    %s = ascii\n' % b),
+        ('if-else', 'if DEBUG:\n    %s = ascii\nelse:\n    other = 1\n' % b),
+        ('try-except', 'try:\n    %s = raw_%s\nexcept NameError:\n    pass\n' % (b, b)),
+        ('try-except-both', 'try:\n    %s = raw_%s\nexcept NameError:\n    %s = None\n' % (b, b, b)),
+        ('for-loop', 'for %s in ():\n    pass\n' % b),
+        ('while-loop', 'while DEBUG:\n    %s = 1\n' % b),
+        ('with', 'with ctx as %s:\n    pass\n' % b),
+        ('with-in-if', 'if DEBUG:\n    with ctx as %s:\n        pass\n' % b),
+        ('unconditional', '%s = ascii\n' % b),
+        ('def', 'def %s(*a):\n    pass\n' % b),
+        ('def-in-if', 'if DEBUG:\n    def %s(*a):\n        pass\n' % b),
+        ('class-in-try', 'try:\n    class %s: pass\nexcept E:\n    pass\n' % b),
+        ('import-in-try', 'try:\n    from m import %s\nexcept ImportError:\n    pass\n' % b),
+        ('import-as-in-if', 'if DEBUG:\n    import os as %s\n' % b),
+        ('star-import', 'from m import *\n'),
+        ('star-import-in-if', 'if DEBUG:\n    from m import *\n'),
+        ('deleted', '%s = 1\ndel %s\n' % (b, b)),
+        ('deleted-in-if', '%s = 1\nif DEBUG:\n    del %s\n' % (b, b)),
+        ('augassign-in-if', 'if DEBUG:\n    %s += 1\n' % b),
+        ('walrus-in-if', 'if (%s := DEBUG):\n    pass\n' % b),
+        ('except-as', 'try:\n    pass\nexcept E as %s:\n    pass\n' % b),
+        ('comprehension-var', 'q = [%s for %s in ()]\n' % (b, b)),
+        ('global-in-function', 'def setter():\n    global %s\n    if DEBUG:\n        %s = 1\n' % (b, b)),
+        ('not-rebound', 'unrelated = 1\n'),
+    ]
+
+
+def namespace_cases(builtins_=('input', 'repr')):
+    """reads of the whole namespace (locals() / vars() / globals() / dir()) at module, class and function level combined
+    with builtin names rebound on some paths only, always, deleted or star-imported at module and class level"""
+    out = []
+    ind = lambda s, k=4: ''.join(' ' * k + l + '\n' for l in s.splitlines())
+    files = {'m.py': 'input = 1\nrepr = 2\nlocals = 3\n'}
+    for b in builtins_:
+        for fl, form in _rebind_forms(b):
+            for ri, reader in enumerate(NAMESPACE_READERS):
+                if b != builtins_[0] and ri >= 4:
+                    continue
+                use = 'ns = %s\u00a6\nns.\u00a6zz\n%s\u00a6\n' % (reader, b)
+                shapes = {
+                    # rebinding at module level, reader at every level
+                    'module/module': form + use,
+                    'module/class': form + 'class A:\n    x = 1\n' + ind(use),
+                    'module/function': form + 'def render(tpl, name):\n' + ind(use) + '    return ns\n',
+                    'module/method': form + 'class A:\n    def render(self, tpl):\n' + ind(use, 8),
+                    'module/nested-function': form + 'def outer(tpl):\n    def inner(tpl):\n' + ind(use, 8) + '    return inner\n',
+                    'module/lambda': form + 'f = lambda tpl: %s\nf\u00a6\n' % reader,
+                    # rebinding in a class body
+                    'class/class': 'class A:\n' + ind(form) + ind(use),
+                    'class/method': 'class A:\n' + ind(form) + '    def render(self, tpl):\n' + ind(use, 8),
+                    'class/module': 'class A:\n' + ind(form) + use,
+                    # rebinding in a function
+                    'function/function': 'def render(tpl, ctx):\n' + ind(form) + ind(use),
+                    'function/nested-function': 'def render(tpl, ctx):\n' + ind(form) + '    def inner(tpl):\n' + ind(use, 8) + '    return inner\n',
+                }
+                for sl, marked in sorted(shapes.items()):
+                    if 'import *' in form and not sl.startswith('module/'):
+                        continue                      # import * only at module level
+                    if 'global ' in form and not sl.startswith('module/'):
+                        continue
+                    text, pos = _cursors(marked.replace('\\u00a6', '\u00a6'))
+                    out.append(_case('namespace:%s:%s:%s:%s' % (b, fl, reader.split('(')[0].replace(' ', ''), sl), text, positions=pos, files=files))
+    seen, res = set(), []
+    for c in out:
+        if c['name'] not in seen:
+            seen.add(c['name'])
+            res.append(c)
+    return res
+
+
 _FAMILY_CACHE = {}
 
 
 def family(name, tier='quick'):
-    key = (name, tier if name in ('flat', 'chars', 'growth', 'chains', 'calls') else '')
+    key = (name, tier if name in ('flat', 'chars', 'growth', 'chains', 'calls', 'flatscopes') else '')
     if key not in _FAMILY_CACHE:
         _FAMILY_CACHE[key] = _family(name, tier)
     return _FAMILY_CACHE[key]
@@ -1272,6 +1420,14 @@ def _family(name, tier='quick'):
                       for p in by[cl] if p[0] > k]
                 c['positions'] = sorted(set(ps))
         return out
+    if name == 'flatscopes':
+        if tier == 'quick':
+            few = ('function-if-else', 'class-body-if', 'class-method-if', 'function-nested-two-deep', 'class-in-function')
+            return (flatscope_cases((100, 200), ('if-reads', 'if-constant', 'try'), few, ('after', 'before')) +
+                    flatscope_cases((400,), ('if-reads', 'if-constant'), few, ('after', 'before')))
+        return flatscope_cases((100, 200, 400)) + flatscope_cases((1000,), ('if-reads', 'if-constant', 'try', 'for'))
+    if name == 'namespace':
+        return namespace_cases()
     if name == 'chains':
         if tier == 'quick':
             return chain_cases()
